@@ -6,6 +6,7 @@ CONSTANTS
   OptLen = 4
   MaxCodons = 3
   PairCodons = 1
+  OrfFamily = TRUE
   LongLens = {}
   SymLen = 3
 INVARIANT TypeOK
@@ -16,5 +17,6 @@ INVARIANT EncodeResolveInverse
 INVARIANT SixFrameLaw
 INVARIANT AnticodonFrameLaw
 INVARIANT StopLaws
+INVARIANT UniqueFrameFamily
 INVARIANT LongLaw
 INVARIANT CodonLaw
